@@ -178,6 +178,8 @@ def run_models(task):
         fixed = task.get("fixed_models") or []
         if it < len(fixed):
             model, tags = fixed[it], ["fixed_witness_model"]
+        elif task.get("pairs") is not None:
+            model, tags = gen.gen_pair_model(rnd, task["pairs"] + it)
         else:
             model, tags = gen.gen_model(rnd, gopts)
         if O.model_points(model) > max_points:
@@ -194,6 +196,9 @@ def run_models(task):
             m2["props"] = ps
             variants.append((m2, "permuted%d" % k))
         for t in tags:
+            if t.startswith("pair:"):
+                res["counters"]["type_pairs_exercised"] = res["counters"].get("type_pairs_exercised", 0) + 1
+                continue
             res["classes"][t] = res["classes"].get(t, 0) + 1
         for mv, vname in variants:
             for cfg in cfgs:
